@@ -425,6 +425,14 @@ def run_endpoints(ctx, clients):
             form["client_id"] = fc[0]
             if fc[1] is not None:
                 form["client_secret"] = fc[1]
+        # a revocation request that is ALSO malformed (no token, a hint the endpoint does not know): authentication comes first
+        malformed = None
+        if kind == "revocation" and rng.random() < 0.4:
+            malformed = rng.choice(["no-token", "bogus-hint", "both"])
+            if malformed in ("no-token", "both"):
+                form.pop("token")
+            if malformed in ("bogus-hint", "both"):
+                form["token_type_hint"] = "bogus"
         req = S.HReq("POST", TOKEN_URL, form, {} if h is None else {"Authorization": h})
         try:
             if kind == "revocation":
@@ -435,8 +443,16 @@ def run_endpoints(ctx, clients):
         except Exception as e:  # noqa
             status, body, hdrs = None, None, []
             out = ["escapes", type(e).__name__]
-        case = {"endpoint": kind, "header": h, "form": fc, "chained": chained}
-        ctx.case(case, ("ep", kind, h, str(fc), str(out), chained), "endpoint:%s%s:%s" % (kind, ":chained" if chained else "", out[1] if out[0] != 200 else "200"))
+        case = {"endpoint": kind, "header": h, "form": fc, "chained": chained, "malformed": malformed}
+        ctx.case(case, ("ep", kind, h, str(fc), str(out), chained, malformed), "endpoint:%s%s:%s" % (kind, ":chained" if chained else "", out[1] if out[0] != 200 else "200"))
+        if kind == "revocation" and out[0] != "escapes":
+            mreq0 = {"auth": h, "assertion_sig_ok": False, "assertion_wellformed": False, "assertion_claims": {}, "form_id": form.get("client_id"),
+                     "form_secret": form.get("client_secret"), "data_id": form.get("client_id"), "data_secret": form.get("client_secret")}
+            lists = [Rev.CLIENT_AUTH_METHODS] + ([["client_secret_basic", "client_secret_post", "none"]] if chained else [])
+            if all(ctx.model.call("authenticate", {"token_url": TOKEN_URL, "now": NOW, "registry": REG, "request": mreq0, "methods": ms, "endpoint": "revocation",
+                                                   "used_jti": []})[0] != "ok" for ms in lists) and out[1] != "invalid_client":
+                ctx.violation("C07:endpoint:answered-before-authentication", "a revocation request whose client authentication fails was answered with %r instead of "
+                              "invalid_client (something about the request was looked at before the client was authenticated)" % (out[1] or out[0]), case)
         if kind == "revocation" and out[0] == 200:
             # answered as a revocation: the request must have authenticated with a method the answering endpoint permits
             mreq = {"auth": h, "assertion_sig_ok": False, "assertion_wellformed": False, "assertion_claims": {}, "form_id": form.get("client_id"),
